@@ -15,6 +15,7 @@ class G:
         self.classes = []   # (name, attrs, methods[(name, nparams)])
         self.globals = []
         self.frozen = set()   # loop counters and parameters: read, never assigned (termination; parameters may alias literals)
+        self.exceptions = True   # try / catch / finally / throw statements are generated (ChaiCore.tla models them)
 
     def fresh(self, p):
         self.n += 1
@@ -206,6 +207,8 @@ class G:
             return {"k": "if", "c": self.bool_expr(env, 1), "t": [{"k": r.choice(["break", "continue"])}], "ei": [], "haselse": False, "f": []}
         if c < 0.88 and infun:
             return {"k": "if", "c": self.bool_expr(env, 1), "t": [{"k": "ret", "e": self.int_expr(env, 1)}], "ei": [], "haselse": False, "f": []}
+        if c < 0.905 and self.exceptions:
+            return self.try_stmt(env, d, inloop, infun)
         if c < 0.92:
             return {"k": "block", "b": self.block(env, d - 1, inloop, infun)}
         if c < 0.96:
@@ -220,6 +223,41 @@ class G:
                 env.append((f, ("fn", 1)))
                 return {"k": "var", "n": f, "e": {"k": "lambda", "caps": [cap], "params": [{"n": "q", "ty": ""}], "b": body}}
         return {"k": "out", "e": self.any_printable(env, 2)}
+
+    def throw_stmt(self, env):
+        r = self.r
+        return {"k": "throw", "e": self.int_expr(env, 1) if r.random() < 0.6 else (self.str_expr(env, 1) if r.random() < 0.7 else self.bool_expr(env, 0))}
+
+    def try_stmt(self, env, d, inloop, infun):
+        """try { ... maybe throw ... } catch(type e) { ... } ... finally { ... }: thrown ints / strings / bools, engine errors, and
+        return / break / continue leaving through the handlers"""
+        r = self.r
+        body = self.block(env, d - 1, inloop, infun, r.randint(1, 2))
+        k = r.random()
+        if k < 0.55:
+            body.insert(r.randint(0, len(body)), {"k": "if", "c": self.bool_expr(env, 1), "t": [self.throw_stmt(env)], "ei": [], "haselse": False, "f": []})
+        elif k < 0.7:
+            body.append(self.throw_stmt(env))
+        elif k < 0.8:
+            body.append({"k": "expr", "e": {"k": "id", "n": self.fresh("undefined")}})        # an engine error (eval_error) inside the body
+        elif k < 0.88:
+            body.append({"k": "out", "e": {"k": "bin", "op": "/", "l": self.int_expr(env, 0), "r": {"k": "int", "v": 0}}})   # arithmetic error
+        clauses = []
+        for ty in r.sample(["int", "string", "bool", ""], r.choice([0, 1, 1, 2, 2, 3])):
+            n = self.fresh("e")
+            cenv = env + ([(n, {"int": "int", "string": "str", "bool": "bool"}[ty])] if ty else [])
+            h = self.block(cenv, d - 1, inloop, infun, 1)
+            if ty and r.random() < 0.7:
+                h.insert(0, {"k": "out", "e": {"k": "id", "n": n}})
+            if r.random() < 0.12:
+                h.append(self.throw_stmt(env))
+            clauses.append({"ty": ty, "n": n, "h": h})
+        clauses.sort(key=lambda c: c["ty"] == "")          # an untyped clause last (as a script author would write it) most of the time
+        if r.random() < 0.15:
+            r.shuffle(clauses)
+        hasfin = r.random() < 0.45 or not clauses
+        fin = self.block(env, 0, False, False, 1) if hasfin else []
+        return {"k": "try", "b": body, "cl": clauses, "hasfin": hasfin, "fin": fin}
 
     def fundef(self):
         r = self.r
@@ -243,12 +281,15 @@ class G:
         defs = []
         tags = iter(range(100, 200))
         kinds = r.sample(["int", "string", "bool", "guard", "any"], r.randint(2, 4))
-        if "any" not in kinds and "guard" in kinds:
+        if "guard" in kinds and r.random() < 0.6:
+            # several guarded overloads whose guards overlap: the first one DEFINED whose guard holds is the one that runs
+            kinds += ["guard"] * r.randint(1, 2)
+        if "any" not in kinds and "guard" in kinds and r.random() < 0.7:
             kinds.append("any")
         for k in kinds:
             if k == "guard":
-                defs.append({"k": "def", "n": name, "params": [{"n": "x", "ty": "int"}], "guarded": True,
-                             "guard": {"k": "bin", "op": r.choice([">", "<", "=="]), "l": {"k": "id", "n": "x"}, "r": {"k": "int", "v": r.randint(0, 3)}},
+                defs.append({"k": "def", "n": name, "params": [{"n": "x", "ty": r.choice(["int", "int", ""])}], "guarded": True,
+                             "guard": {"k": "bin", "op": r.choice([">", "<", "==", ">", ">="]), "l": {"k": "id", "n": "x"}, "r": {"k": "int", "v": r.randint(0, 3)}},
                              "b": [{"k": "expr", "e": {"k": "int", "v": next(tags)}}]})
             else:
                 defs.append({"k": "def", "n": name, "params": [{"n": "x", "ty": "" if k == "any" else k}], "guarded": False, "guard": {"k": "bool", "v": True},
@@ -415,6 +456,15 @@ def ps(s):
         return t + "}"
     if k in ("break", "continue"):
         return k
+    if k == "throw":
+        return f"throw({pe(s['e'])})"
+    if k == "try":
+        t = "try " + blk(s["b"])
+        for c in s["cl"]:
+            t += (f" catch({c['ty']} {c['n']}) " if c["ty"] else f" catch({c['n']}) ") + blk(c["h"])
+        if s["hasfin"]:
+            t += " finally " + blk(s["fin"])
+        return t
     if k == "ret":
         return f"return {pe(s['e'])}"
     if k == "def":
